@@ -38,7 +38,7 @@ Print Assumptions c03_otp_login_refused.
    this history on the implementation (corpus/c03.jsonl). *)
 Definition c03_w_cfg : config :=
   mkConfig [MAuth; MConfirm; MOAuth2] false false false false false false 3 300 3600 600 3600 (bs "/auth")
-           false false false POST GET false [] RespNotFound [bs "google"] [] true false.
+           false false false POST GET false [] RespNotFound [bs "google"] [] true false false.
 Definition c03_w_pid := make_oauth2_pid (bs "google") (bs "100").
 Definition c03_w_user : user :=
   blank_user <| u_pid := c03_w_pid |> <| u_ouid := bs "100" |> <| u_oprov := bs "google" |> <| u_confirmed := false |>.
